@@ -225,7 +225,7 @@ fn doc_tails(doc: &Value) -> Vec<Vec<u8>> {
 
 fn worker(ctx: &mut Ctx) {
     let cases = match ctx.cfg.tier {
-        Tier::Quick => 12_000u64,
+        Tier::Quick => 25_000u64,
         Tier::Thorough => 300_000u64,
     };
     let run = DnaRun {
